@@ -48,7 +48,13 @@ def make_case(prop, seed, i, tier):
         t = spec["tasks"][sub]
         t["auto"], t["need_facility"], t["component"] = True, False, None
     kind = "roundtrip" if (i % 3 == 0) else "edits"
-    return dict(prop=prop, i=i, kind=kind, spec=spec, subproject_task=sub, eseed=rng.randrange(10 ** 9))
+    first = ["sim"]
+    if rng.random() < 0.2:
+        # the simulated project is the result of a backward run (absence list mirrored by the log reversal)
+        first = ["backward", rng.random() < 0.5, rng.random() < 0.8]
+        if rng.random() < 0.6:
+            spec["sim"]["absence"] = sorted(set(spec["sim"]["absence"]) | {rng.choice([1, 2, 3]), rng.choice([200, 1000, 1001])})
+    return dict(prop=prop, i=i, kind=kind, spec=spec, subproject_task=sub, eseed=rng.randrange(10 ** 9), first=first)
 
 
 def log_lengths(p):
@@ -69,7 +75,8 @@ def run_case(case):
     m = B.build(spec, task_overrides=ov)
     h = Hist(spec, model=m)
     tr = I.Tracer([])
-    err = h.do(["sim"])
+    err = h.do(case.get("first") or ["sim"])
+    res.count("C18.first." + (case.get("first") or ["sim"])[0])
     res["source"] = case["kind"]
     if err is not None:
         res["aborted"] = err
@@ -162,6 +169,13 @@ def run_case(case):
                         res.count("C18.inserted_cost_checks")
                         if x < len(l) and l[x] != 0.0:
                             res.violate("C18", "C18/inserted-step-has-cost", "%s: %s.cost_list[%d] = %r" % (op, a, x, l[x]))
+                for a, b, l in B.all_logs(p):
+                    if b == "state_record_list" and x < len(l):
+                        res.count("C18.inserted_state_checks")
+                        if getattr(l[x], "name", "") == "WORKING":
+                            kind = {"T": "task", "C": "component", "W": "worker", "F": "facility"}.get(a.split(":")[0], a)
+                            res.violate("C18", "C18/inserted-step-logged-WORKING:%s" % kind,
+                                        "%s: %s is logged WORKING at the inserted (no-work) step %d" % (op, a, x))
                 for t in p.workflow.task_list:
                     rl = t.remaining_work_amount_record_list
                     res.count("C18.inserted_work_checks")
